@@ -38,6 +38,9 @@ func expectedLogical(ops []setOp, emptyAsItem bool) []refctl.Item {
 	var out []refctl.Item
 	prevTag, prevLen := -1, -1
 	for _, op := range ops {
+		if op.Kind == "serialise" {
+			continue
+		}
 		v := op.Value
 		if len(v) == 0 {
 			if !emptyAsItem {
@@ -92,6 +95,13 @@ func checkWriter(ops []setOp) error {
 	model := map[byte][]byte{}
 	for _, op := range ops {
 		switch op.Kind {
+		case "serialise":
+			// the caller looks at the bytes in between (logging, sending a first part); later sets must still count
+			mid := c.BytesBuffer().Bytes()
+			if got, err := refctl.RawFragments(mid); err != nil {
+				return fmt.Errorf("intermediate serialisation is not well-formed: %v (%d fragments)", err, len(got))
+			}
+			continue
 		case "bytes":
 			c.SetBytes(op.Tag, op.Value)
 		case "string":
@@ -100,6 +110,12 @@ func checkWriter(ops []setOp) error {
 			c.SetByte(op.Tag, op.Value[0])
 		}
 		model[op.Tag] = append(model[op.Tag], op.Value...)
+	}
+	delete(model, 0)
+	for _, op := range ops {
+		if op.Kind != "serialise" && op.Tag == 0 {
+			model[0] = append(model[0], op.Value...)
+		}
 	}
 	wire := c.BytesBuffer().Bytes()
 	wire = append([]byte{}, wire...)
@@ -132,6 +148,17 @@ func checkWriter(ops []setOp) error {
 		if b := back.GetByte(tag); b != wb {
 			return fmt.Errorf("round trip: GetByte(%d) = %d, want %d", tag, b, wb)
 		}
+	}
+	// (1b) reading is repeatable and independent of the order in which tags are read
+	for pass := 0; pass < 2; pass++ {
+		for t := 255; t >= 0; t-- {
+			if got := back.GetBytes(byte(t)); !bytes.Equal(got, model[byte(t)]) {
+				return fmt.Errorf("reading the parsed container again (pass %d): GetBytes(%d) = %d bytes, want %d", pass+2, t, len(got), len(model[byte(t)]))
+			}
+		}
+	}
+	if again := back.BytesBuffer().Bytes(); !bytes.Equal(again, wire) {
+		return fmt.Errorf("re-serialising the parsed container after reading it gives different bytes")
 	}
 	// (2) fragments are at most 255 bytes and a standard parser reassembles them
 	frags, err := refctl.RawFragments(wire)
@@ -217,8 +244,12 @@ func TestC16Prop(t *testing.T) {
 			} else {
 				tag = rapid.Byte().Draw(t, "tag")
 			}
-			kind := rapid.SampledFrom([]string{"bytes", "bytes", "string", "byte"}).Draw(t, "kind")
+			kind := rapid.SampledFrom([]string{"bytes", "bytes", "string", "byte", "byte", "serialise"}).Draw(t, "kind")
 			var v []byte
+			if kind == "serialise" {
+				ops = append(ops, setOp{kind, 0, nil})
+				continue
+			}
 			if kind == "byte" {
 				v = []byte{rapid.Byte().Draw(t, "b")}
 			} else {
@@ -229,7 +260,14 @@ func TestC16Prop(t *testing.T) {
 		}
 		seenTags := map[byte]int{}
 		long, repeated, mult255 := false, false, false
-		for _, op := range ops {
+		serialisedBetween := false
+		for i, op := range ops {
+			if op.Kind == "serialise" {
+				if i < len(ops)-1 {
+					serialisedBetween = true
+				}
+				continue
+			}
 			seenTags[op.Tag]++
 			if seenTags[op.Tag] > 1 {
 				repeated = true
@@ -253,6 +291,9 @@ func TestC16Prop(t *testing.T) {
 		}
 		if total > 1024 {
 			classes = append(classes, "writer:total>1024")
+		}
+		if serialisedBetween {
+			classes = append(classes, "writer:serialised-between-sets")
 		}
 		if len(classes) == 0 {
 			classes = []string{"writer:small"}
